@@ -66,6 +66,17 @@ def has_placeholder(x):
     return False
 
 
+def has_placeholder_key(x):
+    """a type placeholder used as a dictionary key, at any depth"""
+    if isinstance(x, dict):
+        return any((isinstance(k, str) and k in T.PLACEHOLDERS) or has_placeholder_key(v) for k, v in x.items())
+    if isinstance(x, (list, tuple)):
+        return any(has_placeholder_key(v) for v in x)
+    return False
+
+
+
+
 def spec_strip(x, top=True):
     """specification of the placeholder clause: what a tree looks like once no placeholder is left
     (a placeholder becomes None, a one-element list holding a placeholder becomes [])"""
